@@ -670,9 +670,227 @@ func c10R7(c *Ctx, info *effectsInfo) {
 		}
 	}
 	unlockObligations(c, info, lc, ruleU)
+	c10Pool(c, info)
 }
 
 var _ = load.ModPath
+
+// c10Pool (R7.pool): an object taken from a sync.Pool belongs to the goroutine that took it until it is put back; the
+// accesses in between need no lock. That argument holds only if (i) what is put into a pool is an object obtained from
+// a pool or freshly allocated in the same function — never caller-visible memory, (ii) nothing derived from the object
+// is used after Put on any path, (iii) no reference to it is stored anywhere, returned, captured or handed to a callee
+// that keeps or returns it.
+func c10Pool(c *Ctx, info *effectsInfo) {
+	const rule = "R7.pool"
+	r := c.Run
+	r.Rule(rule, "every object handed to sync.Pool.Put was obtained from Get or allocated in the same function, is not used after Put, and no reference to it outlives the function")
+	n := 0
+	for _, f := range info.Funcs {
+		k := 0
+		for _, b := range f.Blocks {
+			for _, ins := range b.Instrs {
+				ci, ok := ins.(ssa.CallInstruction)
+				if !ok {
+					continue
+				}
+				sc := ci.Common().StaticCallee()
+				if sc == nil || sc.String() != "(*sync.Pool).Put" || len(ci.Common().Args) != 2 {
+					continue
+				}
+				n++
+				k++
+				key := fmt.Sprintf("%s/Put#%d", funcKey(f), k)
+				pos := c.Prog.Rel(ins.Pos())
+				root, why := poolRoot(ci.Common().Args[1])
+				if root == nil {
+					r.Bad(rule, key, pos, "the object put back comes from Get or a fresh allocation of this function", why)
+					continue
+				}
+				if bad := poolMisuse(info, f, root, ins); bad != "" {
+					r.Bad(rule, key, pos, "no use after Put, no reference kept", bad)
+					continue
+				}
+				r.OK(rule, key, pos, "owned between Get and Put, not used afterwards, no reference kept", "all uses of the object are loads, stores into it and calls that do not keep it, none reachable after Put", true)
+			}
+		}
+	}
+	if n == 0 {
+		r.OK(rule, "(no sync.Pool)", "", "no Put call in the module", "nothing to check", false)
+	}
+}
+
+// poolRoot follows the value handed to Put back to where the object comes from.
+func poolRoot(v ssa.Value) (ssa.Value, string) {
+	for i := 0; i < 12; i++ {
+		switch x := v.(type) {
+		case *ssa.MakeInterface:
+			v = x.X
+		case *ssa.ChangeType:
+			v = x.X
+		case *ssa.Convert:
+			v = x.X
+		case *ssa.TypeAssert:
+			v = x.X
+		case *ssa.Extract:
+			v = x.Tuple
+		case *ssa.Slice:
+			v = x.X
+		case *ssa.FieldAddr:
+			v = x.X
+		case *ssa.IndexAddr:
+			v = x.X
+		case *ssa.Call:
+			if sc := x.Call.StaticCallee(); sc != nil && sc.String() == "(*sync.Pool).Get" {
+				return x, ""
+			}
+			return nil, "the object is the result of " + x.Call.String()
+		case *ssa.Alloc:
+			return x, ""
+		case *ssa.MakeSlice:
+			return x, ""
+		default:
+			return nil, fmt.Sprintf("the object is %s, which may be visible to the caller", v.String())
+		}
+	}
+	return nil, "origin of the object not found"
+}
+
+// poolMisuse: a use of the object (or of anything derived from it) that is reachable after the Put instruction, or that
+// lets a reference escape. Returns a description, or "".
+func poolMisuse(info *effectsInfo, f *ssa.Function, root ssa.Value, put ssa.Instruction) string {
+	derived := map[ssa.Value]bool{root: true}
+	work := []ssa.Value{root}
+	var uses []ssa.Instruction
+	for len(work) > 0 {
+		v := work[0]
+		work = work[1:]
+		refs := v.Referrers()
+		if refs == nil {
+			continue
+		}
+		for _, ref := range *refs {
+			switch x := ref.(type) {
+			case *ssa.TypeAssert, *ssa.ChangeType, *ssa.Convert, *ssa.Slice, *ssa.FieldAddr, *ssa.IndexAddr, *ssa.MakeInterface, *ssa.Phi, *ssa.Extract:
+				nv := ref.(ssa.Value)
+				if !derived[nv] {
+					derived[nv] = true
+					work = append(work, nv)
+				}
+			case *ssa.DebugRef:
+			default:
+				_ = x
+				uses = append(uses, ref)
+			}
+		}
+	}
+	_, deferred := put.(*ssa.Defer)
+	after := map[*ssa.BasicBlock]bool{}
+	if !deferred {
+		var walk func(b *ssa.BasicBlock)
+		walk = func(b *ssa.BasicBlock) {
+			for _, s := range b.Succs {
+				if !after[s] {
+					after[s] = true
+					walk(s)
+				}
+			}
+		}
+		walk(put.Block())
+	}
+	isAfter := func(ins ssa.Instruction) bool {
+		if deferred || ins == put {
+			return false
+		}
+		if after[ins.Block()] {
+			return true
+		}
+		if ins.Block() == put.Block() {
+			seenPut := false
+			for _, x := range put.Block().Instrs {
+				if x == put {
+					seenPut = true
+				} else if x == ins {
+					return seenPut
+				}
+			}
+		}
+		return false
+	}
+	pointerLike := func(v ssa.Value) bool { return effects.HasRef(v.Type()) }
+	for _, u := range uses {
+		if u == put {
+			continue
+		}
+		if isAfter(u) {
+			return "used after Put: " + u.String()
+		}
+		switch x := u.(type) {
+		case *ssa.UnOp:
+			// a load through the object
+		case *ssa.Store:
+			if derived[x.Val] && pointerLike(x.Val) {
+				return "a reference to the pooled object is stored: " + x.String()
+			}
+		case *ssa.Return:
+			for _, rv := range x.Results {
+				if derived[rv] && pointerLike(rv) {
+					return "a reference to the pooled object is returned"
+				}
+			}
+		case ssa.CallInstruction:
+			com := x.Common()
+			if b, ok := com.Value.(*ssa.Builtin); ok {
+				switch b.Name() {
+				case "len", "cap", "copy":
+					continue
+				}
+				return "pooled object handed to builtin " + b.Name()
+			}
+			if sc := com.StaticCallee(); sc != nil && (sc.String() == "(*sync.Pool).Put" || sc.String() == "(*sync.Pool).Get") {
+				continue // another Put of the same object is its own obligation
+			}
+			args := com.Args
+			if com.IsInvoke() {
+				args = append([]ssa.Value{com.Value}, args...)
+			}
+			for _, callee := range info.A.CalleesOf(x) {
+				sum := info.A.Sums[callee]
+				if sum == nil {
+					// external: consult the effect table through the summary of this function (Opaque) — keep it simple:
+					// the standard-library callees used on scratch memory (cipher.Block.Encrypt, binary.PutUint…) keep nothing
+					continue
+				}
+				for i, a := range args {
+					if !derived[a] {
+						continue
+					}
+					pk := fmt.Sprintf("P%d", i)
+					for dst, srcs := range sum.Retains {
+						for src := range srcs {
+							if effects.RootOf(src) == pk {
+								return fmt.Sprintf("callee %s keeps a reference to the pooled object (in %s)", funcKey(callee), dst)
+							}
+						}
+					}
+					for _, rr := range sum.RetReach {
+						if rr.Has(pk) || rr.Has(pk+"+") {
+							return fmt.Sprintf("callee %s returns memory of the pooled object", funcKey(callee))
+						}
+					}
+				}
+			}
+		case *ssa.MakeClosure, *ssa.MapUpdate, *ssa.Send:
+			return "a reference to the pooled object escapes: " + u.String()
+		case *ssa.BinOp, *ssa.If:
+			// comparisons with nil
+		default:
+			if v, ok := u.(ssa.Value); ok && pointerLike(v) {
+				return "unrecognised use of the pooled object: " + u.String()
+			}
+		}
+	}
+	return ""
+}
 
 // onceGuarded: every unsynchronised write of the variable sits in a function literal (no free variables) run by Do of
 // one package-level sync.Once. Returns that Once and, per access outside those literals, why it is not ordered after a
